@@ -464,6 +464,39 @@ fn oracle_c03_inner(ctx: &mut Ctx, idx: usize, c: &SCase, b: &Built, r: &SearchA
             prev_state = st;
             prev_edge = Some(e);
         }
+        // physical cross-check of the totals against hand-written SI factors (0.3 % tolerance): a
+        // conversion that is off by more than the property's 0.1 % in any unit the route is reported in
+        // shows up here even though model and code would still agree with each other
+        let inner = &route[lo..hi];
+        if let (Some(i), Some(f), Some(last)) = (di, fdu, inner.last()) {
+            let total_m: f64 = inner.iter().map(|et| c.edges[et.edge_id.0].2).sum();
+            let expect = init[i] + total_m / si_d(&f);
+            let got = last.result_state[i].0;
+            if !close(got, expect, 3e-3, 1e-9) {
+                ctx.fail(idx, "state/distance-not-physical", format!("route distance {} {} but the edge lengths sum to {} m = {} {}", got, f, total_m, expect, f));
+            }
+        }
+        if let (Some(i), Some(f), Some(last), Trav::Speed { su, table, .. }) = (ti, ftu, inner.last(), &c.trav) {
+            if matches!(c.access, Acc::None) {
+                let si_speed = |u: &SpeedUnit| match u {
+                    SpeedUnit::KilometersPerHour => 1000.0 / 3600.0,
+                    SpeedUnit::MilesPerHour => 1609.344 / 3600.0,
+                    SpeedUnit::MetersPerSecond => 1.0,
+                };
+                let si_time = |u: &TimeUnit| match u {
+                    TimeUnit::Hours => 3600.0,
+                    TimeUnit::Minutes => 60.0,
+                    TimeUnit::Seconds => 1.0,
+                    TimeUnit::Milliseconds => 0.001,
+                };
+                let secs: f64 = inner.iter().map(|et| c.edges[et.edge_id.0].2 / (table[et.edge_id.0] * si_speed(su))).sum();
+                let expect = init[i] + secs / si_time(&f);
+                let got = last.result_state[i].0;
+                if !close(got, expect, 3e-3, 1e-9) {
+                    ctx.fail(idx, "state/time-not-physical", format!("route time {} {} but length/speed sums to {} s = {} {}", got, f, secs, expect, f));
+                }
+            }
+        }
     }
 }
 
